@@ -543,7 +543,7 @@ def run(tier: str, only_key: dict | None = None) -> int:
             seqs.append((f'alone:{nid}', [(nid, ntext)]))
             seqs.append((f'after:{nid}', [(ident, texts[ident]), (nid, ntext)]))
     lap('TraceClient + neighbours')
-    seq_out = sim.call_in_pool('harness.c08:sequence_history', seqs)
+    seq_out = sim.call_in_pool('harness.c08:sequence_history', seqs, fresh=True)       # one process per sequence: 'alone' means alone
     # ---- failed runs at every crash point: a failure raised at a seeded choice of lines of the modules' Calculate bodies
     pairs = [(a, b) for a, b in (('example1|v1', 'example2|v1'), ('example2|v1', 'example1|v1'), ('example1|v1', 'example3|v1'),
                                  ('example3|v1', 'grid-eu2-pt9|v1'), ('example2|v1', 'example12_DH|v1'), ('example1|v1', 'example_overpressure|v1'),
@@ -556,7 +556,7 @@ def run(tier: str, only_key: dict | None = None) -> int:
         for part in (0, 1):
             crash_items.append((f'crash{k}.{part}', (a, texts[a]), (b, texts[b]), 6 if tier == 'quick' else 12, seed() * 1000 + k, part, 2))
     lap('sequences')
-    crash_out = sim.call_in_pool('harness.c08:crash_history', crash_items)
+    crash_out = sim.call_in_pool('harness.c08:crash_history', crash_items, fresh=True)
     crash_events = [e for c in crash_out for e in c['events']]
     for c in crash_out:
         for cr in c['crashes']:
